@@ -974,3 +974,46 @@ Proof.
   - intros o Ho E o' Ho'. apply orb_false_iff in E. destruct E as [E1 E2]. unfold swap_trk. rewrite E1, E2. apply eqb_inj. exact Hi.
   - cbv zeta in *. rewrite S0. split; [|split; assumption]. apply count_two; auto; apply Okb.
 Qed.
+(* ---------- previous TP judged by its own label (the reading the code does not implement) ---------- *)
+Lemma label_threshold_in T l t : label_threshold T l = Some t -> exists l', In (l', t) T.
+Proof.
+  induction T as [|[l0 t0] T IH]; cbn [label_threshold]; [discriminate|].
+  destruct (Nat.eqb l0 l); intros H.
+  - inversion H; subst. exists l0. left. reflexivity.
+  - destruct (IH H) as (l' & Hin). exists l'. right. exact Hin.
+Qed.
+
+Lemma existsb_ext_in {A} (f g : A -> bool) l : (forall x, In x l -> f x = g x) -> existsb f l = existsb g l.
+Proof.
+  induction l as [|a l IH]; intros H; [reflexivity|]. cbn [existsb].
+  rewrite (H a (or_introl eq_refl)), IH; [reflexivity|]. intros x Hx. apply H. right. exact Hx.
+Qed.
+
+Lemma countb_ext_in {A} (f g : A -> bool) l : (forall x, In x l -> f x = g x) -> countb f l = countb g l.
+Proof.
+  unfold countb. induction l as [|a l IH]; intros H; [reflexivity|]. cbn [filter].
+  rewrite (H a (or_introl eq_refl)).
+  assert (E : length (filter f l) = length (filter g l)) by (apply IH; intros x Hx; apply H; right; exact Hx).
+  destruct (g a); cbn [length]; rewrite E; reflexivity.
+Qed.
+
+Theorem prev_tp_own_partial m T t0 prevs curs :
+  (forall l t, In (l, t) T -> t = t0) -> (forall p, In p prevs -> is_target T p = true) ->
+  (forall t, pairing_consistent m t prevs) ->
+  let a := calc_tp_fp m T prevs curs in
+  c_tp a = countb (spec_tp_own m T prevs) curs /\ c_sw a = countb (spec_sw_own m T prevs) curs.
+Proof.
+  intros Hu Ht Hc. cbv zeta. destruct (calc_spec m T prevs curs Hc) as (H1 & _ & H3 & _).
+  rewrite H1, H3. cbn [spec_frame c_tp c_sw].
+  assert (Eo : forall p, In p prevs -> is_tp_own m T p = is_correct m t0 p).
+  { intros p Hp. specialize (Ht p Hp). unfold is_target in Ht. unfold is_tp_own.
+    destruct (label_threshold T (thr_label p)) as [t'|] eqn:E; [|discriminate].
+    destruct (label_threshold_in _ _ _ E) as (l' & Hin). rewrite (Hu l' t' Hin). reflexivity. }
+  split; apply countb_ext_in; intros r _.
+  - unfold spec_tp, spec_tp_own. destruct (label_threshold T (thr_label r)) as [t|] eqn:E; [|reflexivity].
+    destruct (label_threshold_in _ _ _ E) as (l' & Hin). rewrite (Hu l' t Hin). unfold carriedb.
+    f_equal. apply existsb_ext_in. intros p Hp. rewrite (Eo p Hp). reflexivity.
+  - unfold spec_sw, spec_sw_own. destruct (label_threshold T (thr_label r)) as [t|] eqn:E; [|reflexivity].
+    destruct (label_threshold_in _ _ _ E) as (l' & Hin). rewrite (Hu l' t Hin). unfold carriedb, switchedb.
+    f_equal; [f_equal; f_equal|]; apply existsb_ext_in; intros p Hp; rewrite (Eo p Hp); reflexivity.
+Qed.
